@@ -176,6 +176,39 @@ def check(ctx):
     ctx.check("f.applies_to_trial(1 + (i)//(self.sustain_count(f)))" in Fi.tests() and '[].append(\'\')' in Fi.exprs(), R, ai, "implied fill",
               "implied factors get '' where they do not apply (sustain-divided query)", "add_implied_levels applicability / empty entry changed")
 
+    # ---- window arguments of the SAT encoding: position i of a width-w window refers to the trial i steps later; a
+    # BeforeStart marker is aged by the mirrored position.  Mirror rule: in `for i, x in enumerate(L)`, an expression
+    # len(M) - i - 1 must measure the list that i enumerates.
+    R = "C15.window"
+    sw = ctx.fn("derivation_processor:DerivationProcessor.shift_window")
+    n_m = 0
+    for lp in [s for s in statements(sw.node) if isinstance(s, ast.For)]:
+        if not (isinstance(lp.iter, ast.Call) and dotted(lp.iter.func) == "enumerate" and isinstance(lp.target, ast.Tuple) and len(lp.target.elts) == 2
+                and isinstance(lp.target.elts[0], ast.Name)):
+            continue
+        i = lp.target.elts[0].id
+        L = ast.unparse(lp.iter.args[0])
+        for node in ast.walk(lp):
+            if isinstance(node, ast.Call) and dotted(node.func) == "len" and len(node.args) == 1:
+                # is this len(..) combined with the loop index?
+                par = [p for p in ast.walk(lp) if isinstance(p, ast.BinOp) and any(c is node for c in ast.walk(p)) and any(isinstance(c, ast.Name) and c.id == i for c in ast.walk(p))]
+                if not par:
+                    continue
+                n_m += 1
+                M = ast.unparse(node.args[0])
+                ctx.check(M == L, R, sw, "mirror index len(%s) - %s" % (M, i), "the mirrored position is taken in the list that is being enumerated",
+                          "shift_window ages a BeforeStart marker by `len(%s) - %s - 1` while `%s` enumerates `%s`: the offset is measured in another list "
+                          "(all window positions of all factors instead of this factor's window)" % (M, i, i, L), node)
+    ctx.require(n_m >= 1, "shift_window: the mirrored BeforeStart offset was not found")
+    Fw = Facts(sw)
+    src = [ast.unparse(s) for s in statements(sw.node)]
+    ctx.check("l.append(BeforeStart(idx.ready_at + (len(idx_list) - i - 1)))" in src or any(s.startswith("l.append(BeforeStart(idx.ready_at + (len(") for s in src), R, sw, "marker aged",
+              "a not-yet-available input stays a BeforeStart marker, aged by its distance to the end of the window", "the BeforeStart branch of shift_window changed")
+    ctx.check("l.append(cast(int, idx) + i * sustain_count * trial_size)" in src, R, sw, "shift", "position i of the window is shifted by i sustained trials",
+              "the index shift of shift_window changed: %s" % [s for s in src if s.startswith("l.append(cast")])
+    ctx.check("sublist_size = len(idx_list) // argc" in src and "argc = len(window.factors)" in src and "if window.width == 1:\n    return indices" in src, R, sw, "per-factor windows",
+              "the flat argument tuple is cut into one window per factor; width-1 windows are not shifted", "the per-factor split of shift_window changed")
+
     mod = sys.modules[__name__]
     control(ctx, mod, "coverage entry becomes a warning",
             lambda s: variants.in_function(s, "sweetpea/_internal/derivation_processor.py", "DerivationProcessor.generate_derivations",
@@ -190,4 +223,5 @@ def check(ctx):
     ctx.min_instances("C15.overlap", 4)
     ctx.min_instances("C15.gap", 5)
     ctx.min_instances("C15.gate", 5)
+    ctx.min_instances("C15.window", 4)
     ctx.min_instances("C15.applicability", 5)
